@@ -917,4 +917,190 @@ theorem firstAbort_panic {vs : List (GKey × GV)} (h : firstAbort vs = some "pan
       exact ⟨kv, hkv, hf ▸ hw⟩
     · simp at hf
 
+/-! ### finer case analysis for the denial theorem -/
+
+theorem fetchDs_insecure_cases (sub : Query → Res) (zone : DName) (h : fetchDs sub zone = .err .insecure) :
+    ∃ md, sub ⟨zone, tDS⟩ = .ok md ∧ NoSecureSupportedDs md ∧
+      ((∃ x ∈ md.an, x.rtype = tDS ∧ x.proof = .secure) ∨ (∀ x ∈ md.an, x.rtype ≠ tDS)) := by
+  obtain ⟨md, hmd, hno⟩ := fetchDs_insecure sub zone h
+  refine ⟨md, hmd, hno, ?_⟩
+  unfold fetchDs at h
+  rw [hmd] at h
+  simp only at h
+  split at h
+  · rename_i hany
+    left
+    simp only [List.any_eq_true, List.mem_filter, beq_iff_eq] at hany
+    obtain ⟨x, ⟨hx, ht⟩, hp⟩ := hany
+    exact ⟨x, hx, ht, hp⟩
+  · split at h
+    · rename_i hno'
+      right
+      intro x hx ht
+      have : (md.an.any fun x => x.rtype == tDS) = true := by
+        simp only [List.any_eq_true, beq_iff_eq]
+        exact ⟨x, hx, ht⟩
+      simp [this] at hno'
+    · simp at h
+
+theorem fetchDs_ok_any_secure (sub : Query → Res) (zone : DName) (ds : List Rec) (h : fetchDs sub zone = .ok ds) :
+    ∃ md, sub ⟨zone, tDS⟩ = .ok md ∧ ∃ x ∈ md.an, x.rtype = tDS ∧ x.proof = .secure := by
+  obtain ⟨md, hmd, _⟩ := fetchDs_ok sub zone ds h
+  refine ⟨md, hmd, ?_⟩
+  unfold fetchDs at h
+  rw [hmd] at h
+  simp only at h
+  split at h
+  · rename_i hany
+    simp only [List.any_eq_true, List.mem_filter, beq_iff_eq] at hany
+    obtain ⟨x, ⟨hx, ht⟩, hp⟩ := hany
+    exact ⟨x, hx, ht, hp⟩
+  · split at h <;> simp at h
+
+/-- a DNSKEY RRset is Insecure because the DS lookup said "insecure", or because the validated DS RRset has a
+Secure record but none that is Secure and supported -/
+theorem verifyDnskeyRrset_insecure_cases (env : Env) (sub : Query → Res) (gid : GroupId) (recs sigs : List Rec)
+    (idx : Option Nat) (h : verifyDnskeyRrset env sub gid recs sigs = .done .insecure idx) :
+    fetchDs sub gid.name = .err .insecure ∨
+    (∃ md, sub ⟨gid.name, tDS⟩ = .ok md ∧ (∃ x ∈ md.an, x.rtype = tDS ∧ x.proof = .secure) ∧ NoSecureSupportedDs md) := by
+  have hno := verifyDnskeyRrset_insecure env sub gid recs sigs idx h
+  unfold verifyDnskeyRrset at h
+  dsimp only at h
+  split at h
+  · simp at h
+  · rename_i p hf
+    injection h with h1 _
+    subst h1
+    split at hf
+    · exact Or.inl hf
+    · simp at hf
+  · rename_i ds hf
+    split at hf
+    · right
+      obtain ⟨md, hmd, hx⟩ := fetchDs_ok_any_secure _ _ _ hf
+      obtain ⟨md', hmd', hno'⟩ := hno
+      rw [hmd] at hmd'
+      injection hmd' with hmd'
+      subst hmd'
+      exact ⟨md, hmd, hx, hno'⟩
+    · -- no DS fetch: ds = [], the verdict cannot be Insecure
+      injection hf with hf
+      subst hf
+      exfalso
+      simp only [List.isEmpty_nil, Bool.not_true, Bool.false_and, Bool.false_eq_true, if_false] at h
+      split at h
+      · rename_i p i hfs
+        injection h with h1 _
+        subst h1
+        obtain ⟨sig, _, _, hs⟩ := firstSig_some _ _ _ _ _ _ _ hfs
+        exact absurd hs (sigByKeys_ne_insecure _ _ _ _)
+      · split at h
+        · rename_i hall
+          split at h
+          · rename_i p hlast
+            injection h with h1 _
+            subst h1
+            have := getLast?_of_all hall hlast
+            simp at this
+          · simp at h
+        · simp at h
+
+theorem verifyDefaultRrset_insecure_cases (env : Env) (sub : Query → Res) (q : Query) (gid : GroupId)
+    (sigs : List Rec) (idx : Option Nat)
+    (h : verifyDefaultRrset env sub q gid sigs = .done .insecure idx) :
+    (∃ zone, fetchDs sub zone = .err .insecure) ∨
+    (∃ (s : Rec) (m : Msg) (k : Rec), sub ⟨s.signer, tDNSKEY⟩ = .ok m ∧ k ∈ m.an ∧ k.proof = .insecure) := by
+  unfold verifyDefaultRrset at h
+  split at h
+  · split at h
+    · dsimp only at h
+      split at h
+      · simp at h
+      · rename_i p hf
+        injection h with h1 _
+        subst h1
+        left
+        unfold findDs at hf
+        split at hf
+        · simp at hf
+        · simp at hf
+        · rename_i zone _
+          split at hf
+          · simp at hf
+          · rename_i p' hfd
+            injection hf with hf
+            subst hf
+            exact ⟨zone, hfd⟩
+          · simp at hf
+      · simp at h
+    · simp at h
+  · exact Or.inr (selectOk_insecure _ _ _ _ _ h)
+
+theorem findDs_insecure (env : Env) (sub : Query → Res) (n : DName) (h : findDs env sub n = .err .insecure) :
+    ∃ zone, fetchDs sub zone = .err .insecure := by
+  unfold findDs at h
+  split at h
+  · simp at h
+  · simp at h
+  · rename_i zone _
+    split at h
+    · simp at h
+    · rename_i p' hfd
+      injection h with h
+      subst h
+      exact ⟨zone, hfd⟩
+    · simp at h
+
+theorem relabelOne_gkey (sec : List Rec) (vs : List (GKey × GV)) (i : Nat) (r : Rec) :
+    (relabelOne sec vs i r).gkey = r.gkey ∧ (relabelOne sec vs i r).isSig = r.isSig ∧
+      (relabelOne sec vs i r).rtype = r.rtype := by
+  have h := relabelOne_raw sec vs i r
+  have h1 : (relabelOne sec vs i r).raw.name = r.raw.name := by rw [h]
+  have h2 : (relabelOne sec vs i r).raw.rtype = r.raw.rtype := by rw [h]
+  have h3 : (relabelOne sec vs i r).raw.covered = r.raw.covered := by rw [h]
+  simp only [raw_name, raw_rtype] at h1 h2
+  have h3' : (relabelOne sec vs i r).covered = r.covered := h3
+  refine ⟨?_, ?_, h2⟩
+  · simp [Rec.gkey, Rec.gtype, Rec.isSig, h1, h2, h3']
+  · simp [Rec.isSig, h2]
+
+theorem mem_relabel_of_mem (sec : List Rec) (vs : List (GKey × GV)) (x : Rec) (hx : x ∈ sec) :
+    ∃ i, relabelOne sec vs i x ∈ relabel sec vs := by
+  obtain ⟨i, hi, he⟩ := List.getElem_of_mem hx
+  refine ⟨i, ?_⟩
+  unfold relabel
+  exact List.mem_mapIdx.mpr ⟨i, hi, by rw [he]⟩
+
+theorem relabel_eq_nil (sec : List Rec) (vs : List (GKey × GV)) : relabel sec vs = [] ↔ sec = [] := by
+  unfold relabel
+  simp
+
+/-- the "all authorities Insecure" exit shows an Insecure record in the validated authority section -/
+theorem allAuthInsecure_exists (env : Env) (sub : Query → Res) (d : Nat) (q : Query) (qid : Nat) (ns : List Rec)
+    (h : allAuthInsecure (relabel ns (verdicts env sub d q qid 1 ns)) (verdicts env sub d q qid 1 ns) = true) :
+    ∃ x ∈ relabel ns (verdicts env sub d q qid 1 ns), x.proof = .insecure := by
+  unfold allAuthInsecure at h
+  simp only [Bool.and_eq_true, Bool.not_eq_true', List.isEmpty_eq_false_iff, ne_eq, List.all_eq_true] at h
+  obtain ⟨hne, hall⟩ := h
+  obtain ⟨kv, hkv⟩ := List.exists_mem_of_ne_nil _ hne
+  obtain ⟨hk, _⟩ := mem_verdicts hkv
+  obtain ⟨x, hx, hxk⟩ := mem_groupKeys hk
+  obtain ⟨i, hi⟩ := mem_relabel_of_mem ns (verdicts env sub d q qid 1 ns) x hx
+  obtain ⟨hg, hs, _⟩ := relabelOne_gkey ns (verdicts env sub d q qid 1 ns) i x
+  refine ⟨_, hi, ?_⟩
+  obtain ⟨hr, hsg⟩ := hall kv hkv
+  cases hsx : x.isSig with
+  | true =>
+    have : relabelOne ns (verdicts env sub d q qid 1 ns) i x ∈
+        groupSigs (relabel ns (verdicts env sub d q qid 1 ns)) kv.1 := by
+      unfold groupSigs
+      simp [hi, hs, hsx, hg, hxk]
+    simpa using hsg _ this
+  | false =>
+    have : relabelOne ns (verdicts env sub d q qid 1 ns) i x ∈
+        groupRecs (relabel ns (verdicts env sub d q qid 1 ns)) kv.1 := by
+      unfold groupRecs
+      simp [hi, hs, hsx, hg, hxk]
+    simpa using hr _ this
+
 end HickoryVerif.Chain
